@@ -31,6 +31,7 @@ fn handle(f: &[String]) -> Vec<String> {
         "import_path" => res(r::import_path(&f[1], &f[2])),
         "absolute" => res(r::absolute(&f[1])),
         "diff_paths" => res(r::diff_paths(&f[1], &f[2])),
+        "export_and_merge" => unit(r::export_and_merge(&f[1], &f[2], &f[3])),
         "reset" => {
             r::registry_reset();
             res(Ok(String::new()))
